@@ -175,13 +175,31 @@ func (w *W) c11Program(k int, emit func(blob, dump []byte)) {
 	if len(docs) == 0 {
 		return
 	}
-	A := simdjson.NewSerializer()
-	B := simdjson.NewSerializer()
+	S := []*simdjson.Serializer{simdjson.NewSerializer(), simdjson.NewSerializer()}
 	if k%3 == 0 {
-		B = A
+		S[1] = S[0]
 	}
 	if k%2 == 0 {
-		A.CompressMode(simdjson.CompressFast) // sticky fast flag before other modes
+		S[0].CompressMode(simdjson.CompressFast) // sticky fast flag before other modes
+	}
+	if k%4 >= 2 {
+		// the first thing a fresh Serializer does is Deserialize (blob made by a throw-away one)
+		d := docs[r.Intn(len(docs))]
+		tmp := simdjson.NewSerializer()
+		tmp.CompressMode(compModes[r.Intn(4)])
+		blob := tmp.Serialize(nil, *d.pj)
+		for _, x := range S {
+			out, err := x.Deserialize(blob, nil)
+			w.Eval(1)
+			if err != nil {
+				w.Violation("C11/Deserialize-error/first-call", fmt.Sprintf("a fresh Serializer fails on a valid blob: %v", err), cs)
+				return
+			}
+			if diff := c11Compare(out, d); diff != "" {
+				w.Violation("C11/different-document/first-call", "a fresh Serializer's first Deserialize gives a different document: "+diff, cs)
+				return
+			}
+		}
 	}
 	dsts := []*simdjson.ParsedJson{nil, {}, {}}
 	var trace []string
@@ -191,6 +209,8 @@ func (w *W) c11Program(k int, emit func(blob, dump []byte)) {
 		d := docs[r.Intn(len(docs))]
 		em := compModes[r.Intn(4)]
 		dm := compModes[r.Intn(4)]
+		A := S[r.Intn(2)]
+		B := S[r.Intn(2)]
 		A.CompressMode(em)
 		var blob []byte
 		var pre []byte
@@ -266,6 +286,52 @@ func (w *W) c11Program(k int, emit func(blob, dump []byte)) {
 	if w.WantSample() {
 		w.Sample(map[string]interface{}{"program": k, "history": lastN(trace, 10)})
 	}
+}
+
+// c11StaleSuffix: one Serializer serializes [B] and then [P,B] where P is a
+// prefix of B: P lands at the offset B had in the previous call, so the bytes
+// after it in the (reused) string table's spare capacity are B's tail. A
+// de-duplication lookup that compares beyond the table's length then "finds"
+// B. It needs P and B to share one of the 16384 hash buckets, so many pairs.
+func (w *W) c11StaleSuffix(pairs int) {
+	ser := simdjson.NewSerializer()
+	ser.CompressMode(simdjson.CompressNone)
+	r := w.rng("stale", w.Out.Shard)
+	var reuse *simdjson.ParsedJson
+	for i := 0; i < pairs; i++ {
+		p := fmt.Sprintf("p%x", r.Uint64())
+		b := p + fmt.Sprintf("-suffix-%x", r.Uint64()>>40)
+		if i%3 == 0 {
+			b = p + "\u0000\u0000\u0000"
+		}
+		d1 := []byte(`["` + b + `"]`)
+		d2 := []byte(`["` + p + `","` + b + `","` + p + `x"]`)
+		cs := &ev.Case{Gen: "c11-stale-suffix", Input: d2}
+		w.Journal(cs)
+		for _, doc := range [][]byte{d1, d2} {
+			a := ref.Analyze(doc)
+			pj, err := simdjson.Parse(doc, reuse)
+			if err != nil || a.Class != ref.MustAccept {
+				w.Count("valid_doc_rejected_by_parse_(C01)", 1)
+				continue
+			}
+			reuse = pj
+			blob := ser.Serialize(nil, *pj)
+			out, err := ser.Deserialize(blob, nil)
+			w.Eval(1)
+			if err != nil {
+				w.Violation("C11/Deserialize-error/stale-suffix", fmt.Sprintf("round trip failed: %v; doc=%s after %s", err, q(doc), q(d1)), cs)
+				return
+			}
+			got, werr := walk.Into(out)
+			if d := cmpRoots([]*ref.Value{a.Value}, got, werr, false); d != "" {
+				w.Violation("C11/different-document/stale-suffix", fmt.Sprintf("round trip on a reused Serializer gives a different document: %s; doc=%s serialized right after %s", d, q(doc), q(d1)), cs)
+				return
+			}
+		}
+		w.Nontrivial(gen.Hash64(d2))
+	}
+	w.Count("stale_suffix_pairs", pairs)
 }
 
 func runC11(w *W) {
@@ -363,6 +429,13 @@ func runC11(w *W) {
 			if w.mine(k) {
 				w.c11Program(k, nil)
 			}
+		}
+		if w.Out.Variant != "race" {
+			pairs := 12000
+			if w.thorough() {
+				pairs = 150000
+			}
+			w.c11StaleSuffix(pairs)
 		}
 	}
 }
